@@ -93,6 +93,10 @@ def margLoop (n : Nat) (val : Nat → α) : Nat → Nat → MState α → MState
 def marginalize (n : Nat) (val : Nat → α) : List (Nat × α) :=
   (margLoop n val (n - 2) (n - 1) { pr := [((1 : Nat) : α)], out := [] }).out ++ [(n, val 1)]
 
+/-- The list `exp(pr_a_ln[2:])` at the start of iteration `k` (after the iterations `n-1, …, k+1`). -/
+def prAt (n k : Nat) : List α :=
+  (margLoop n (fun _ => ((0 : Nat) : α)) (n - 1 - k) (n - 1) { pr := [((1 : Nat) : α)], out := [] }).pr
+
 end Marg
 
 section Moments
@@ -131,12 +135,19 @@ def val1 (n : Nat) (a : Nat) : α := (hypoMean n).getD a ((0 : Nat) : α)
 def val2 (n : Nat) (a : Nat) : α :=
   (hypoVar n).getD a ((0 : Nat) : α) + val1 n a * val1 n a
 
-/-- `moments[k, 1] - moments[k, 0] ** 2`, rows `k = 2 … n`. -/
+/-- `moments[k, 1] - moments[k, 0] ** 2`, rows `k = 2 … n`.  (`let`: the two arrays are computed
+once, as in the code; `fun a => hm.getD a 0` is `val1 n`, the other one `val2 n`.) -/
 def condCoalVar (n : Nat) : List (Nat × α) :=
-  List.zipWith (fun m1 m2 => (m1.1, m2.2 - m1.2 * m1.2)) (marginalize n (val1 n)) (marginalize n (val2 n))
+  let hm : List α := hypoMean n
+  let hv : List α := hypoVar n
+  let v1 : Nat → α := fun a => hm.getD a ((0 : Nat) : α)
+  let v2 : Nat → α := fun a => hv.getD a ((0 : Nat) : α) + v1 a * v1 a
+  List.zipWith (fun m1 m2 => (m1.1, m2.2 - m1.2 * m1.2)) (marginalize n v1) (marginalize n v2)
 
 /-- `moments[k, 0]`, rows `k = 2 … n` (not returned by the code; compared with `tau_expect`). -/
-def condCoalMean (n : Nat) : List (Nat × α) := marginalize n (val1 n)
+def condCoalMean (n : Nat) : List (Nat × α) :=
+  let hm : List α := hypoMean n
+  marginalize n (fun a => hm.getD a ((0 : Nat) : α))
 
 /-- `ConditionalCoalescentTimes.tau_expect(i, n)`. -/
 def tauExpect (i n : Nat) : α :=
